@@ -220,8 +220,8 @@ for _p, _gs in (("C14", ["TwoCol"]), ("C15", ["BlockOps", "DefTable"]), ("C17", 
 
 # LARGE-input groups (harness/gen.go groupBig), see ./check: thorough tier, or quick tier on a tree that differs from
 # the pinned fingerprint
-for _pid, _bg in (("C04", ["L-pos"]), ("C05", ["L-pos"]), ("C09", ["L-pos"]), ("C06", ["L-wrap"]), ("C07", ["L-wrap", "L-align"]),
-                  ("C12", ["L-wrap"]), ("C13", ["L-align"]), ("C10", ["L-lines"]), ("C11", ["L-lines"]), ("C17", ["L-lines"]),
+for _pid, _bg in (("C04", ["L-pos"]), ("C05", ["L-pos"]), ("C09", ["L-pos"]), ("C06", ["L-wrap"]), ("C07", ["L-wrap", "L-align", "L-lines"]),
+                  ("C12", ["L-wrap"]), ("C13", ["L-align", "L-lines"]), ("C10", ["L-lines"]), ("C11", ["L-lines"]), ("C17", ["L-lines"]),
                   ("C14", ["L-comp"]), ("C15", ["L-comp"]), ("C16", ["L-comp"]), ("C03", ["L-pos"]),
                   ("C18", ["L-pos", "L-wrap", "L-align", "L-lines", "L-comp"])):
     PROPS[_pid]["big_groups"] = _bg
